@@ -55,6 +55,13 @@ def call_ref(it, name, args, kwargs, node, fr):
         u.tree_data = args[0]
         u.tree_space = getattr(args[0], "space", None)
         return u
+    if name in ("numba.prange",):
+        return call_builtin(it, "range", args, kwargs, node, fr)
+    if name in ("numba.cuda.grid",):
+        i_ = Val(sym(f"tid@{getattr(node, 'lineno', 0)}"))
+        i_.is_scalar_index = True
+        i_.scalar_pos = True
+        return i_
     if name == "copy.deepcopy" or name == "copy.copy":
         return deep_copy(args[0])
     if name == "decimal.Decimal":
@@ -867,7 +874,7 @@ def call_method(it, recv, name, args, kwargs, node, fr):
             if _flag(kwargs, "return_distance", True) is False:
                 return idx
             return Seq([dist, idx], "tuple")
-        u = Unk(base_t, space=None)
+        u = Unk(base_t, space=qsp)  # one neighbour list per query point
         u.pos_of = recv.tree_space
         u.tree_query = (recv, args[0] if args else None)
         if _flag(kwargs, "return_distance", False) is True:
